@@ -1004,7 +1004,11 @@ pub fn handle(line: &str) -> String {
     TASKS.with(|m| *m.borrow_mut() = Default::default());
     ca::clear_errors();
     let base = ca::live().0;
+    // `@panic` marks the point where a Rust panic starts; what follows up to `panic` is unwinding
+    // (the checks judge the trace up to that point)
+    trace::mark_panics(true);
     let ok = inner(line);
+    trace::mark_panics(false);
     let leak = ca::live().0 as i64 - base as i64;
     if !ok {
         return "bad-script".into();
